@@ -69,8 +69,31 @@ def unaint(a: dict) -> int:
     raise ProjectionError(f"not an integer value: {a}")
 
 
+def runs(b: bytes) -> list:
+    """Run-length notation [[byte, count], ...] (maximal runs)."""
+    out = []
+    for c in b:
+        if out and out[-1][0] == c:
+            out[-1][1] += 1
+        else:
+            out.append([c, 1])
+    return out
+
+
+def unruns(rs) -> bytes:
+    return b"".join(bytes([c]) * n for c, n in rs)
+
+
 def ablob(b: bytes) -> dict:
+    if len(b) > 256:
+        return {"rle": runs(b)}
     return {"blob": list(b)}
+
+
+def unblob(a: dict) -> bytes:
+    if "rle" in a:
+        return unruns(a["rle"])
+    return bytes(a["blob"])
 
 
 # ---------------------------------------------------------------- floats
@@ -287,11 +310,11 @@ def _build_item(a: dict, fs: dict):
     if kt == "float64":
         return unafloat(a)
     if kt == "string":
-        return bytes(a["blob"]).decode("utf-8")
+        return unblob(a).decode("utf-8")
     if kt in ("bytes", "records"):
-        return bytes(a["blob"])
+        return unblob(a)
     if kt == "uuid":
-        return uuid.UUID(bytes=bytes(a["blob"]))
+        return uuid.UUID(bytes=unblob(a))
     if kt in ("timedelta_i32", "timedelta_i64"):
         return datetime.timedelta(milliseconds=unaint(a))
     if kt == "datetime_i64":
